@@ -196,6 +196,10 @@ type Worker struct {
 	keys        []*testKey
 	scaled      map[*Term]*scaledInfo
 	edSigs      []*edRecord
+	curModel    map[string]uint64 // an assignment satisfying the current path condition (if modelValid)
+	modelValid  bool
+	evalMemo    map[*Term]uint64
+	SavedQ      int
 	opaqueN     int
 
 	// stats
@@ -236,6 +240,38 @@ func (w *Worker) assume(t *Term) {
 	w.pc = append(w.pc, t)
 	w.S.Assert(t)
 	w.learn(t, true)
+	if w.modelValid && !w.evalBool(t) {
+		w.modelValid = false
+	}
+}
+
+func (w *Worker) evalBool(t *Term) bool {
+	return w.T.Eval(t, w.curModel, w.evalMemo) == 1
+}
+
+// refreshModel obtains an assignment for the current path condition (one check-sat + get-value).
+func (w *Worker) refreshModel() {
+	if w.modelValid || noModelCache {
+		return
+	}
+	w.S.Push()
+	r := w.S.Check()
+	if r == Sat {
+		vals, err := w.S.Values(w.vars)
+		if err == nil {
+			w.curModel = map[string]uint64{}
+			for t, v := range vals {
+				w.curModel[t.Name] = v
+			}
+			w.evalMemo = map[*Term]uint64{}
+			w.modelValid = true
+		}
+	}
+	if w.S.Dead() {
+		w.reviveSolver()
+	} else {
+		w.S.Pop(1)
+	}
 }
 
 // learn records literals implied by an asserted constraint so that re-testing the same condition
@@ -403,7 +439,25 @@ func (w *Worker) decide(alts []*Term, what string) int {
 		return d.Pick
 	}
 	var feas []int
+	known := -1
+	if !noModelCache {
+		w.refreshModel()
+		if w.modelValid {
+			// the cached assignment satisfies the path condition: the alternative it satisfies is feasible
+			for i, a := range alts {
+				if w.evalBool(a) {
+					known = i
+					break
+				}
+			}
+		}
+	}
 	for i, a := range alts {
+		if i == known {
+			w.SavedQ++
+			feas = append(feas, i)
+			continue
+		}
 		if w.feasible(a) {
 			feas = append(feas, i)
 		}
@@ -468,6 +522,8 @@ func (w *Worker) choose(n int, what string) int {
 
 const maxConcretize = 1100
 
+var noModelCache = os.Getenv("GOSYM_MODEL_CACHE") == "" // experimental (fewer queries, no wall-clock gain measured): off by default
+
 var traceDecisions = os.Getenv("GOSYM_TRACE") != ""
 
 // concretize forks over the feasible values of t (enumeration with blocking).
@@ -494,11 +550,18 @@ func (w *Worker) concretize(t *Term, what string) uint64 {
 			w.assume(w.T.Not(eq))
 			continue
 		}
-		_, vals, ok := w.modelFor(t)
-		if !ok {
-			panic(pathEnd{endInfeasible, "no model while concretising " + what})
+		var v uint64
+		w.refreshModel()
+		if w.modelValid && !noModelCache {
+			v = w.T.Eval(t, w.curModel, w.evalMemo)
+			w.SavedQ++
+		} else {
+			_, vals, ok := w.modelFor(t)
+			if !ok {
+				panic(pathEnd{endInfeasible, "no model while concretising " + what})
+			}
+			v = vals
 		}
-		v := vals
 		eq := w.T.Eq(t, w.T.Const(t.Sort, v))
 		if w.feasible(w.T.Not(eq)) {
 			w.pushSibling(Decision{Pick: 0, Val: v})
@@ -785,6 +848,9 @@ func (w *Worker) runPath(fn *ssa.Function, prefix []Decision) {
 	w.keys = w.keys[:0]
 	w.scaled = nil
 	w.edSigs = w.edSigs[:0]
+	w.curModel = map[string]uint64{} // the empty path condition is satisfied by the all-zero assignment
+	w.modelValid = true
+	w.evalMemo = map[*Term]uint64{}
 	w.freshN = 0
 	w.opaqueN = 0
 	w.pathViol = 0
